@@ -42,6 +42,7 @@ ITEMS = [
 OPTIONAL_TESTS = [
     ("test_pubsub_ingest", r"^    fn test_pubsub_ingest\b"),
     ("test_pubsub_clear_message", r"^    fn test_pubsub_clear_message\b"),
+    ("test_session_details_from", r"^    fn test_session_details_from\b"),
 ]
 
 
